@@ -359,6 +359,12 @@ Proof.
   all: try (split; [intros Hr Hn c' Hc'; rewrite ?existsb_upd_kpc; apply K1; try assumption; try congruence; try lia
                    | intros w' Hw'; rewrite ?existsb_upd_kpc; apply K2; assumption]; fail).
   all: try (split; [intros Hr Hn c' [] | intros w' Hw'; rewrite ?existsb_upd_kpc; apply K2; assumption]; fail).
+  all: try (split; [intros Hr Hn c' Hc'; rewrite ?existsb_upd_kpc; apply K1; try assumption; try congruence; try lia
+                   | intros w' Hw'; apply in_map_iff in Hw' as (w0 & <- & Hw0);
+                     rewrite release_child, ?existsb_upd_kpc; apply K2; assumption]; fail).
+  all: try (split; [intros Hr Hn c' []
+                   | intros w' Hw'; apply in_map_iff in Hw' as (w0 & <- & Hw0);
+                     rewrite release_child, ?existsb_upd_kpc; apply K2; assumption]; fail).
   all: try (split; [intros Hr Hn c' Hc'; rewrite existsb_app; apply orb_true_iff; right;
                     apply spawn_has_kid; exact Hc'
                    | intros w' Hw'; rewrite existsb_app, (K2 _ Hw'); reflexivity]; fail).
